@@ -44,6 +44,8 @@ def clone(node):
     for f in node._fields:
         if hasattr(node, f):
             setattr(new, f, clone(getattr(node, f)))
+    if getattr(node, '_implicit', False):
+        new._implicit = True
     for a in node._attributes:
         if hasattr(node, a):
             setattr(new, a, getattr(node, a))
@@ -666,6 +668,7 @@ class Normaliser:
                     if strict:
                         tail = [ast.Raise(exc=ast.Call(func=ast.Name(id='KeyError', ctx=ast.Load()),
                                                        args=[clone(key)], keywords=[]), cause=None)]
+                        tail[0]._implicit = True
                     for k, body in reversed(arms):
                         test = ast.Compare(left=clone(key), ops=[ast.Eq()], comparators=[clone(k)])
                         node = ast.If(test=test, body=body, orelse=([node] if node is not None else tail))
@@ -1199,6 +1202,39 @@ class Normaliser:
                     st.iter = T().visit(st.iter)
         return changed
 
+    def _enum_member_value(self, e: ast.AST):
+        """`Klass.MEMBER.value` where Klass is the one class of that name in the repository, derives from an
+        Enum and binds MEMBER to a constant -> that Constant node, else None"""
+        if not (isinstance(e, ast.Attribute) and e.attr == 'value' and isinstance(e.value, ast.Attribute)
+                and isinstance(e.value.value, ast.Name)):
+            return None
+        cname, member = e.value.value.id, e.value.attr
+        cache = getattr(self, '_enum_cache', None)
+        if cache is None:
+            cache = self._enum_cache = {}
+        if cname not in cache:
+            found = []
+            for rel in self.repo.py_files('dashlive'):
+                try:
+                    src = self.repo.source(rel)
+                    if f'class {cname}(' not in src:
+                        continue
+                    tree = self.repo.tree(rel)
+                except Exception:       # noqa: BLE001
+                    continue
+                for n in getattr(tree, 'body', []):
+                    if isinstance(n, ast.ClassDef) and n.name == cname:
+                        found.append(n)
+            cache[cname] = found[0] if len(found) == 1 else None
+        cdef = cache[cname]
+        if cdef is None or not any('Enum' in ast.unparse(b) for b in cdef.bases):
+            return None
+        vals = [x.value for x in cdef.body if isinstance(x, ast.Assign) and len(x.targets) == 1
+                and isinstance(x.targets[0], ast.Name) and x.targets[0].id == member]
+        if len(vals) == 1 and isinstance(vals[0], ast.Constant) and isinstance(vals[0].value, (str, int)):
+            return ast.copy_location(ast.Constant(value=vals[0].value), e)
+        return None
+
     def _lookup_table(self, e: ast.AST, mod, cls):
         """a class / module level name spelt as a constant and bound once to a dict display whose keys are
         constants (or tuples of constants) and whose values are constants, names, attributes or tuples of
@@ -1239,6 +1275,15 @@ class Normaliser:
         if len(defs) != 1 or not isinstance(defs[0], ast.Dict) or not defs[0].keys or len(defs[0].keys) > 8:
             return None
         lit = defs[0]
+        if any(k is not None and not isinstance(k, (ast.Constant, ast.Tuple)) for k in lit.keys):
+            # Colour.RED.value as a key: the constant the enumeration member is bound to
+            keys2 = []
+            for k in lit.keys:
+                v = self._enum_member_value(k) if k is not None and not isinstance(k, (ast.Constant, ast.Tuple)) else k
+                if v is None:
+                    return None
+                keys2.append(v)
+            lit = ast.copy_location(ast.Dict(keys=keys2, values=lit.values), lit)
 
         def const_key(k) -> bool:
             if isinstance(k, ast.Constant):
@@ -1404,6 +1449,7 @@ class Normaliser:
                 if strict:
                     last: list[ast.stmt] = [ast.Raise(exc=ast.Call(func=ast.Name(id='KeyError', ctx=ast.Load()),
                                                                    args=[clone(key)], keywords=[]), cause=None)]
+                    last[0]._implicit = True        # a failing d[key]: the source has no raise statement
                 else:
                     last = branch(default)
                     if last is None:
